@@ -48,7 +48,61 @@ pub fn run(kind: &str, src: &str) -> Outcome {
     }
 }
 
-pub fn search(tag: &str, _tier: &str) -> Option<Value> {
+
+// ---------------------------------------------------------------- declaration order
+/// The grammar a source denotes does not depend on the order of its declarations (other than the relative
+/// order of the precedence lines, which sets their levels): two renderings of the same declarations are
+/// built and their language-level content compared by name.
+fn content(g: &YaccGrammar<u32>) -> Vec<String> {
+    let mut v = Vec::new();
+    let mut toks: Vec<String> = g.iter_tidxs().map(|t| format!("token {:?} prec {:?} avoid {} epp {:?}", g.token_name(t), g.token_precedence(t), g.avoid_insert(t), g.token_epp(t))).collect();
+    toks.sort();
+    v.extend(toks);
+    let mut prods: Vec<String> = (0..usize::from(g.prods_len())).map(|p| format!("{} prec {:?}", g.pp_prod(PIdx(p as u32)), g.prod_precedence(PIdx(p as u32)))).collect();
+    prods.sort();
+    v.extend(prods);
+    v
+}
+
+pub fn run_order(decls: &[String], body: &str, perm: &[usize]) -> Outcome {
+    let expected = "the same grammar whatever the order of the declarations".to_string();
+    let render = |order: &[usize]| { let mut s = String::from("%start S\n"); for &k in order { s.push_str(&decls[k]); s.push('\n'); } s.push_str("%%\n"); s.push_str(body); s };
+    let ident: Vec<usize> = (0..decls.len()).collect();
+    let yk = YaccKind::Original(YaccOriginalActionKind::NoAction);
+    let a = YaccGrammar::<u32>::new_with_storaget(yk, &render(&ident));
+    let b = YaccGrammar::<u32>::new_with_storaget(yk, &render(perm));
+    match (a, b) {
+        (Ok(ga), Ok(gb)) => { let (ca, cb) = (content(&ga), content(&gb)); Outcome { fails: ca != cb, observed: if ca != cb { format!("{:?} vs {:?}", ca, cb) } else { "same".into() }, expected } }
+        (Err(_), Err(_)) => Outcome { fails: false, observed: "both rejected".into(), expected },
+        (Ok(_), Err(e)) => Outcome { fails: true, observed: format!("accepted as {:?} but rejected as {:?}: {}", render(&ident), render(perm), e.iter().map(|x| x.to_string()).collect::<Vec<_>>().join("; ")), expected },
+        (Err(e), Ok(_)) => Outcome { fails: true, observed: format!("rejected as {:?} but accepted as {:?}: {}", render(&ident), render(perm), e.iter().map(|x| x.to_string()).collect::<Vec<_>>().join("; ")), expected },
+    }
+}
+
+fn search_order(tier: &str) -> Option<Value> {
+    let n = if tier == "thorough" { 4000 } else { 500 };
+    let mut r = crate::grms::Rng(0x2545F4914F6CDD1D);
+    let names = ["INT", "PLUS"];
+    for _ in 0..n {
+        // commuting declarations over the names; at most one precedence line (their relative order would matter)
+        let mut decls: Vec<String> = Vec::new();
+        for _ in 0..1 + r.below(3) {
+            let kind = ["%token", "%avoid_insert", "%token", "%expect-unused"][r.below(4)];
+            let mut d = String::from(kind);
+            for _ in 0..1 + r.below(2) { d.push(' '); d.push_str(names[r.below(2)]); }
+            decls.push(d);
+        }
+        if r.below(3) == 0 { decls.push(format!("%left {}", names[r.below(2)])); }
+        let body = "S: S PLUS INT | INT;";
+        let mut perm: Vec<usize> = (0..decls.len()).collect();
+        for i in (1..perm.len()).rev() { let j = r.below(i + 1); perm.swap(i, j); }
+        let o = run_order(&decls, body, &perm);
+        if o.fails { return Some(witness("c10_order", json!({"decls": decls, "body": body, "perm": perm}), &o)); }
+    }
+    None
+}
+
+pub fn search(tag: &str, tier: &str) -> Option<Value> {
     let want_avoid = tag.contains("avoid_insert");
     let mut other = None;
     for (k, g) in GRMS {
@@ -59,5 +113,6 @@ pub fn search(tag: &str, _tier: &str) -> Option<Value> {
             if other.is_none() { other = Some(w); }
         }
     }
-    other
+    if other.is_some() { return other; }
+    search_order(tier)
 }
